@@ -110,7 +110,11 @@ def meta_spec(draw, depth, in_project):
         if mapped and draw(st.booleans()):
             lidx = sorted(set(lidx) | set(draw(st.lists(st.sampled_from(sorted(mapped)), min_size=1, max_size=3, unique=True))))
         # controllers that are mapped get a plain one-word label more often (their label alias is then usable)
-        labels = [[i, draw(st.one_of(words, words, vs.text_no_nul(12)) if i in mapped else st.one_of(vs.text_no_nul(12), vs.text_no_nul(12), words, vs.long_text()))] for i in lidx]
+        # ... and labels that look like what the library itself would call the controller
+        def looks_default(i):
+            return st.sampled_from(["User Defined %d" % (i + 1), "User Defined %d" % (i + 2), "user defined %d" % (i + 1), "user_defined_%d" % (i + 1), "User Defined"])
+
+        labels = [[i, draw(st.one_of(words, words, vs.text_no_nul(12), looks_default(i)) if i in mapped else st.one_of(vs.text_no_nul(12), vs.text_no_nul(12), words, vs.long_text(), looks_default(i)))] for i in lidx]
     rederive = draw(st.booleans())
     # library precondition (see vlib.edits.live_propagation_hazard): a value assigned through a user
     # controller mapped to (module, index) is echoed to whatever mapping names (module, index + 1)
